@@ -149,6 +149,7 @@ func (m *CPU) Run(app risc.Application) (int, error) {
 				for !wu.isEmpty() || !m.writeBus.IsEmpty() {
 					m.ctx.VerifTick(cycle)
 					cycle++
+					m.writeBus.Connect(cycle + 1)
 					wu.cycle(m.ctx, from)
 				}
 			}
